@@ -231,7 +231,7 @@ func rnsExtra(st *rnsStep) string {
 }
 
 func short(addr string) string {
-	for i := 0; i < 12; i++ {
+	for i := 0; i < 40; i++ {
 		if chain.Acc(i).Bech == addr {
 			return fmt.Sprintf("acc%d", i)
 		}
